@@ -1069,7 +1069,9 @@ fn parsing_canonical_form(schema: &JsonValue, defined_names: &mut HashSet<String
         JsonValue::Object(map) => pcf_map(map, defined_names),
         JsonValue::String(s) => pcf_string(s),
         JsonValue::Array(v) => pcf_array(v, defined_names),
-        json => panic!("got invalid JSON value for canonical form of schema: {json}"),
+        // A custom attribute may carry a key that means something elsewhere (`order`, `items`, ...)
+        // with any JSON value: render it as it is instead of panicking.
+        json => json.to_string(),
     }
 }
 
@@ -1126,9 +1128,14 @@ fn pcf_map(schema: &Map<String, JsonValue>, defined_names: &mut HashSet<String>)
 
         // Strip off quotes surrounding "size" type, if they exist ([INTEGERS] rule).
         if k == "size" || k == "precision" || k == "scale" {
-            let i = match v.as_str() {
-                Some(s) => s.parse::<i64>().expect("Only valid schemas are accepted!"),
-                None => v.as_i64().unwrap(),
+            // `size` may exceed i64::MAX and (ignored) `precision`/`scale` attributes may hold anything
+            let i = match v {
+                JsonValue::String(s) => match s.parse::<i64>() {
+                    Ok(i) => i.to_string(),
+                    Err(_) => pcf_string(s),
+                },
+                JsonValue::Number(n) => n.to_string(),
+                other => parsing_canonical_form(other, defined_names),
             };
             fields.push((k, format!("{}:{}", pcf_string(k), i)));
             continue;
